@@ -28,6 +28,7 @@ func SendTimeout
   exit_ensures[value]    nacts(K_ChanSend, ch) == 1 ==> actval(K_ChanSend, ch) == value
   exit_ensures[untouched] nacts(K_ChanRecv, ch) == 0 && nacts(K_ChanRecvClosed, ch) == 0 && nacts(K_ChanClose) == 0
   exit_ensures[nolimit]  timeout <= 0 ==> result && nacts(K_TimerNew) == 0
+  exit_ensures[limit]    timeout > 0 ==> nacts(K_TimerNew) == 1 && timerarg() == timeout
 
 func SendContext
   property C19
@@ -49,6 +50,7 @@ func RecvTimeout
   exit_ensures[zero]     !result1 ==> result0 == zero(V)
   exit_ensures[untouched] nacts(K_ChanSend) == 0 && nacts(K_ChanClose) == 0
   exit_ensures[nolimit]  timeout <= 0 ==> nacts(K_TimerNew) == 0 && (result1 || nacts(K_ChanRecvClosed, ch) == 1)
+  exit_ensures[limit]    timeout > 0 ==> nacts(K_TimerNew) == 1 && timerarg() == timeout
 
 func RecvContext
   property C19
